@@ -4,7 +4,8 @@
    the configured ranges), bfe_server.setClientAddr, mod_header.setDefaultHeader, on the header map parsed from the
    client's header lines [pairs]. *)
 From Coq Require Import List ZArith Bool.
-From Bfe Require Import lib.Val lib.Bytes model.HopByHop model.ClientAddr proofs.ClientAddrProofs.
+From Bfe Require Import lib.Val lib.Bytes model.HopByHop model.ClientAddr proofs.ClientAddrProofs run.RunC29
+     proofs.ClientAddrRunProofs.
 Import ListNotations.
 Open Scope Z_scope.
 
@@ -51,6 +52,22 @@ Theorem C29_trusted_without_headers_nil : forall parse table peer pairs,
   r_caddr (process parse table peer pairs) = None.
 Proof. exact trusted_without_headers_nil. Qed.
 Print Assumptions C29_trusted_without_headers_nil.
+
+(* End to end through the wire functions the harness evaluates on the real server: for EVERY input whose peer address
+   text contains neither comma nor blank (wf_C29), the model's observation satisfies the executable property prop_C29
+   (trust flag = table membership; X-Forwarded-For ends with the peer ip; untrusted: ClientAddr, X-Real-Ip, X-Real-Port
+   are the peer's; trusted: the documented header is honoured).  No finding class: kf_C29 = 0 everywhere.  The model
+   is tied to the running server by agree_C29 on every case. *)
+Theorem C29_prop_of_model : forall i, wf_C29 i = true -> prop_C29 i (run_C29 i) = true.
+Proof. exact prop_C29_of_model. Qed.
+Print Assumptions C29_prop_of_model.
+
+Example C29_prop_of_model_nonvacuous :
+  wf_C29 ex_wire = true /\
+  run_C29 ex_wire = VL [VZ 1; VL [VB [0;0;0;0;0;0;0;0;0;0;255;255;1;2;3;4]; VZ 0];
+                        VL [VB [49;50;55;46;48;46;48;46;50]]; VL [VB [49;46;50;46;51;46;52]]; VL [VB [48]];
+                        VL [VB [52;48;48;48;48]]].
+Proof. exact ex_wire_ok. Qed.
 
 (* Non-vacuity: peer 203.0.113.9:40000 sending "x-real-ip: 1.2.3.4", "X-Real-Port: 80", "X-Forwarded-For: 6.6.6.6,
    7.7.7.7"; untrusted under the table 10.0.0.0-10.255.255.255, trusted under 203.0.113.0-203.0.113.255. *)
